@@ -95,6 +95,43 @@ fn answer_compile(body: &str) -> String {
     }
 }
 
+/// `which <aarch64 instruction>`: the table entry the matcher takes for the line, as `<mnemonic>#<index in the mnemonic's entry list>`
+fn which_a64(line: &str) -> String {
+    use crate::arch::aarch64 as a;
+    let _ = proc_macro_error2::take_errors();
+    let line = line.to_string();
+    let r = catch_unwind(AssertUnwindSafe(move || -> Result<String, String> {
+        let ts: proc_macro2::TokenStream = line.parse().map_err(|e| format!("lex: {}", e))?;
+        let parser = |input: syn::parse::ParseStream| -> syn::Result<String> {
+            let dctx = crate::DynasmContext::new();
+            let mut stmts = Vec::new();
+            let mut state = crate::State { stmts: &mut stmts, invocation_context: &dctx };
+            let mut ctx = a::Context { state: &mut state };
+            let (instruction, args) = a::parser::parse_instruction(&mut ctx, input)?;
+            let name = instruction.ident.to_string();
+            // swallow whatever the instruction parser left (it stops at `;`)
+            while !input.is_empty() { let _: proc_macro2::TokenTree = input.parse()?; }
+            match a::matching::match_instruction(&mut ctx, &instruction, args) {
+                Ok(m) => {
+                    let list = a::aarch64data::get_mnemonic_data(&name).unwrap_or(&[]);
+                    match list.iter().position(|d| std::ptr::eq(d, m.data)) {
+                        Some(i) => Ok(format!("{}#{}", name, i)),
+                        None => Ok(format!("{}#?", name)),
+                    }
+                }
+                Err(e) => Ok(format!("nomatch {}", json_str(&e.unwrap_or_default()))),
+            }
+        };
+        syn::parse::Parser::parse2(parser, ts).map_err(|e| format!("{}", e))
+    }));
+    let _ = proc_macro_error2::take_errors();
+    match r {
+        Ok(Ok(s)) => s,
+        Ok(Err(e)) => format!("parse-error {}", json_str(&e)),
+        Err(_) => "panic".into(),
+    }
+}
+
 fn answer_serialize(body: &str) -> String {
     match compile(body) {
         Compiled::Ok(stmts) => {
@@ -190,6 +227,7 @@ fn exec() {
             "hdr" => format!("hdr {}", rest.split_whitespace().next().unwrap_or("")),
             "cl" => answer_compile(rest),
             "ser" => answer_serialize(rest),
+            "which" => which_a64(rest),
             "enc" => { let ws: Vec<&str> = t.split_whitespace().collect(); enc(&ws) }
             "feat" => feat(rest),
             "encsweep" => encsweep(rest.trim()),
